@@ -214,6 +214,86 @@ def residual_dims(model, res):
         res.analysed.append('%s:%s (%s)' % (RESMOD, cn, ','.join(unpack)))
 
 
+MIN_SETTERS = 8      # confirmed on the pinned tree: 4 EOS setters + 4 residual-class setters
+
+
+def setter_coherence(model, res):
+    """(4) "for all admissible constants" includes the constants installed through the public
+    setters.  For every `set_new_*` method of an EOS / residual class: the abstract object state
+    after  construct(args); setter(x)  equals, attribute by attribute (normal forms), the state
+    after  construct(args with one argument replaced by x).  An attribute that the constructor
+    derives from the replaced argument and the setter leaves alone (a stale cached constant) makes
+    the closures / residual mix two different equations of state or initial states."""
+    from ..nf import NAN
+    n = 0
+    for modn in (EOSMOD, RESMOD):
+        mod = model.modules[modn]
+        for cn, ci in mod.classes.items():
+            init = ci.find_method('__init__')
+            setters = [mm for nm, mm in sorted(ci.methods.items()) if nm.startswith('set_new_')]
+            if init is None or not setters:
+                continue
+            names = [a.arg for a in init.node.args.args[1:]]
+            for s in setters:
+                sp = [a.arg for a in s.node.args.args[1:]]
+                if len(sp) != 1:
+                    raise AnalysisError('%s.%s: setter with %d parameters (rule handles one)' % (cn, s.name, len(sp)))
+                n += 1
+                res.obligations += 1
+                res.evaluations += 1
+                b = Builder(model)
+                b.frame = Frame(None, mod, {}, None)
+                A = [b.mk('input', nm) for nm in names]
+                o1 = b.instantiate(ci, args=A)
+                h0 = dict(b.heap[o1.val.oid])
+                X = b.mk('input', 'new:' + sp[0])
+                b.frame = Frame(None, mod, {}, None)
+                b.call_closure(Closure(s, s.node, None, self_node=o1, cls=s.cls, module=s.module), [X], {}, s.node)
+                h1 = dict(b.heap[o1.val.oid])
+                ev = NFEval([])
+                changed = [a for a in h1 if a not in h0 or h0[a] is not h1[a]]
+                best = None
+                for j in range(len(names)):
+                    A2 = list(A)
+                    A2[j] = X
+                    b.frame = Frame(None, mod, {}, None)
+                    o2 = b.instantiate(ci, args=A2)
+                    h2 = dict(b.heap[o2.val.oid])
+                    diff = []
+                    for a in sorted(set(h1) | set(h2)):
+                        if a not in h1 or a not in h2:
+                            diff.append(a)
+                            continue
+                        x, y = ev.nf(h1[a]), ev.nf(h2[a])
+                        if x is NAN or y is NAN or not ev.equal(x, y):
+                            diff.append(a)
+                    agree_changed = [a for a in changed if a not in diff]
+                    if best is None or (len(diff), -len(agree_changed)) < (len(best[1]), -len(best[4])):
+                        best = (names[j], diff, h1, h2, agree_changed)
+                if best is None or not best[4]:
+                    raise AnalysisError('%s.%s does not replace a constructor argument (unrecognised setter shape)'
+                                        % (cn, s.name))
+                if len(changed) > 1 or best[1]:
+                    res.nontrivial += 1
+                if not best[1]:
+                    res.discharged += 1
+                    res.sample({'rule': 'C16.setter', 'class': cn, 'setter': s.name, 'replaces': best[0],
+                                'attributes_compared': len(best[2])}, limit=30)
+                    continue
+                for a in best[1]:
+                    res.add(Finding(PROP, 'C16.setter', s.module.relpath, '%s.%s' % (cn, s.name),
+                                    "%s.%s leaves '%s' as computed from the old %s" % (cn, s.name, a, best[0]),
+                                    "%s: after %s(x) the attribute '%s' is %s, but an object constructed with %s = x has %s: "
+                                    "the constructor derives '%s' from %s and the setter does not refresh it, so the "
+                                    "closures / residual use constants of two different configurations"
+                                    % (cn, s.name, a, ev.nf(best[2][a]).key()[:120] if a in best[2] else 'unset',
+                                       best[0], ev.nf(best[3][a]).key()[:120] if a in best[3] else 'unset', a, best[0]),
+                                    line=s.node.lineno, construct='def %s' % s.name))
+    if n < MIN_SETTERS:
+        raise AnalysisError('only %d set_new_* methods found in the EOS / residual classes (confirmed: %d)' % (n, MIN_SETTERS))
+    res.extra['setters_checked'] = n
+
+
 def run(model, tier):
     res = Result(PROP)
     res.explanation = (
@@ -226,11 +306,14 @@ def run(model, tier):
         'dimension [F_i]/[x_j] (four residual classes). (3) Inverse closures: P(rho, e(rho, P)) - P and '
         'e(rho, P(rho, e)) - e reduce to 0 as rational functions (canonical rational normal form, piecewise for '
         'Steinberg). That a dimensionally correct derivative is THE derivative, that F_prime_inv is the inverse and '
-        'Newton convergence are not decided (symbolic differentiation / numerics).')
+        'Newton convergence are not decided (symbolic differentiation / numerics). (4) Setter coherence: for every public set_new_* '
+        'method of an EOS or residual class, construct(args); setter(x) leaves the object in the same abstract state (normal forms of '
+        'all attributes) as construct(args with the corresponding argument replaced by x): no cached derived constant goes stale.')
     res.rule_text = 'instances: interface slots, dimension constraints, inverse-closure identities'
     res.trusted_base = ['CPython ast', 'sympy FracField / cancel', 'signature table']
     interface(model, res)
     eos_dims(model, res)
     inverse_closures(model, res)
     residual_dims(model, res)
+    setter_coherence(model, res)
     return res
